@@ -356,37 +356,58 @@ def boundsForRow (lo : QOpts) (c : Clause) (r : Row) : Except QErr QOpts :=
 /-- `compatibleRows`. -/
 def compatibleRows (r nr : Row) : Bool := nr.all fun (k, v) => match r.get k with | some ov => sameCell ov v | none => true
 
-/-- First half of `addSpecifiedData`: fix the clause's open positions from the row's values. -/
-def specialise (r : Row) (c : Clause) (lo : QOpts) : Except QErr (Clause × QOpts) := do
-  let c := if c.s.isNone then
-      match boundValue r [c.sBinding, c.sAlias] with
-      | some (.node n) => { c with s := some n }
-      | _ => c
-    else c
-  let c := if c.p.isNone && c.pID ≠ [] && c.pAnchorBinding ≠ [] then
-      match r.get c.pAnchorBinding with
-      | some (.time t) => { c with p := some (.tmp c.pID t) }
-      | _ => c
-    else c
-  let (c, lo) ← if c.p.isNone then do
-      let c := match boundValue r [c.pBinding, c.pAlias] with
-        | some (.pred p) => { c with p := some p }
-        | _ => c
-      let lo ← boundsForRow lo c r
-      pure (c, lo)
-    else pure (c, lo)
-  let c := if c.o.isNone && c.oID ≠ [] && c.oAnchorBinding ≠ [] then
-      match r.get c.oAnchorBinding with
-      | some (.time t) => { c with o := some (.pred (.tmp c.oID t)) }
-      | _ => c
-    else c
-  if c.o.isNone then do
-      let c := match (boundValue r [c.oBinding, c.oAlias]).bind cellToObj with
-        | some o => { c with o := some o }
-        | none => c
-      let lo ← boundsForRow lo c r
-      pure (c, lo)
-    else pure (c, lo)
+/-- First half of `addSpecifiedData`: fix the clause's open positions from the row's values.
+    The five steps, in the order of the Go code: subject from its binding/alias; predicate from the
+    anchor binding of `"id"@[?t]`; predicate from its binding/alias (then the row's bounds); object
+    from the anchor binding; object from its binding/alias (then the row's bounds again). -/
+def spS (r : Row) (c : Clause) : Clause :=
+  if c.s.isNone then
+    match boundValue r [c.sBinding, c.sAlias] with
+    | some (.node n) => { c with s := some n }
+    | _ => c
+  else c
+
+def spPA (r : Row) (c : Clause) : Clause :=
+  if c.p.isNone && c.pID ≠ [] && c.pAnchorBinding ≠ [] then
+    match r.get c.pAnchorBinding with
+    | some (.time t) => { c with p := some (.tmp c.pID t) }
+    | _ => c
+  else c
+
+def spP (r : Row) (c : Clause) : Clause :=
+  match boundValue r [c.pBinding, c.pAlias] with
+  | some (.pred p) => { c with p := some p }
+  | _ => c
+
+def spOA (r : Row) (c : Clause) : Clause :=
+  if c.o.isNone && c.oID ≠ [] && c.oAnchorBinding ≠ [] then
+    match r.get c.oAnchorBinding with
+    | some (.time t) => { c with o := some (.pred (.tmp c.oID t)) }
+    | _ => c
+  else c
+
+def spO (r : Row) (c : Clause) : Clause :=
+  match (boundValue r [c.oBinding, c.oAlias]).bind cellToObj with
+  | some o => { c with o := some o }
+  | none => c
+
+def specialise (r : Row) (c : Clause) (lo : QOpts) : Except QErr (Clause × QOpts) :=
+  let c2 := spPA r (spS r c)
+  let step3 : Except QErr (Clause × QOpts) :=
+    if c2.p.isNone then
+      match boundsForRow lo (spP r c2) r with
+      | .ok lo' => .ok (spP r c2, lo')
+      | .error e => .error e
+    else .ok (c2, lo)
+  match step3 with
+  | .error e => .error e
+  | .ok (c3, lo3) =>
+    let c4 := spOA r c3
+    if c4.o.isNone then
+      match boundsForRow lo3 (spO r c4) r with
+      | .ok lo' => .ok (spO r c4, lo')
+      | .error e => .error e
+    else .ok (c4, lo3)
 
 /-- Second half: join the row with the fetched rows that agree with it; an OPTIONAL clause without
     such rows keeps the row with its new bindings unset. -/
